@@ -3,7 +3,7 @@
     whole modelled open is free of forbidden outcomes. *)
 From Coq Require Import NArith ZArith List Bool Lia ZifyBool ZifyNat ZifyN.
 From KdV Require Import Parse.Bounded Parse.BoundedProofs Parse.NotesModel Parse.ElfModel Parse.ElfProofs
-     Parse.FlatModel Parse.FlatProofs Parse.SizesModel Parse.SizesProofs Parse.ProbeModel.
+     Parse.FlatInit Parse.FlatInitProofs Parse.SizesModel Parse.SizesProofs Parse.ProbeModel.
 Import ListNotations.
 Local Open Scope N_scope.
 #[local] Hint Resolve good_ok good_noprobe : core.
